@@ -22,6 +22,8 @@ Record access := mkA {
                                          or captured local accessed before the go statement *)
   a_local : bool;                     (* a local variable of function a_owner captured by a go-closure
                                          (one instance per invocation of a_owner) *)
+  a_global : bool;                    (* a package-level variable (a_owner = the package); its declaration
+                                         is recorded as a write by <pkg>.init *)
   a_recv : list string;               (* channels received from on every path before the access *)
   a_signal : list string              (* channels closed / sent to unconditionally after it *)
 }.
